@@ -44,6 +44,18 @@ const LIFECYCLES: &[(&str, &str)] = &[
     ("replaced", "trap 'echo OLD' EXIT; trap 'HANDLER' EXIT"),
     ("removed", "trap 'HANDLER' EXIT; trap - EXIT"),
     ("ignored", "trap 'HANDLER' EXIT; trap '' EXIT"),
+    // the pseudo-signal spelled other ways (lower case, mixed case, number 0, one-argument reset)
+    ("set-once-lower", "trap 'HANDLER' exit"),
+    ("set-once-mixed", "trap 'HANDLER' Exit"),
+    ("set-once-number", "trap 'HANDLER' 0"),
+    ("replaced-lower-then-upper", "trap 'echo OLD' exit; trap 'HANDLER' EXIT"),
+    ("replaced-upper-then-lower", "trap 'echo OLD' EXIT; trap 'HANDLER' exit"),
+    ("replaced-upper-then-number", "trap 'echo OLD' EXIT; trap 'HANDLER' 0"),
+    ("removed-lower", "trap 'HANDLER' EXIT; trap - exit"),
+    ("removed-number", "trap 'HANDLER' exit; trap - 0"),
+    ("removed-one-argument", "trap 'HANDLER' EXIT; trap EXIT"),
+    ("removed-one-argument-number", "trap 'HANDLER' EXIT; trap 0"),
+    ("ignored-lower", "trap 'HANDLER' EXIT; trap '' exit"),
     ("set-in-func", "st() { trap 'HANDLER' EXIT; }; st"),
     ("set-in-subshell", "( trap 'HANDLER' EXIT; echo in-sub )"),
 ];
@@ -79,7 +91,7 @@ fn build(tier: Tier) -> Vec<Case> {
                     let trap = ltext.replace("HANDLER", hbody);
                     let script = format!("{hsetup}\n{psetup}\n{trap}\necho start\n{copen}{pcmd}{cclose}\necho \"end=$?\"\n");
                     let markers = match *ln {
-                        "removed" | "ignored" => Some(0),
+                        l if l.starts_with("removed") || l.starts_with("ignored") => Some(0),
                         _ => Some(1),
                     };
                     out.push(Case {
@@ -151,6 +163,10 @@ fn build(tier: Tier) -> Vec<Case> {
         ("exit-in-exit-handler-twice", "trap 'echo \"T:$?\"; exit 8' EXIT\nexit 2\n"),
         ("err-in-function-errtrace", "set -E\ntrap 'echo \"E:$?\"' ERR\nf() { vexit 6; echo \"in=$?\"; }\nf\necho \"after=$?\"\n"),
         ("debug-return-not-confused", "trap 'echo \"T:$?\"' EXIT\nf() { return 6; }\nf\n"),
+        ("err-lower", "trap 'echo \"E:$?\"' err\nvexit 3\necho \"after=$?\"\n"),
+        ("err-replaced-upper-then-lower", "trap 'echo OLD' ERR\ntrap 'echo \"E:$?\"' err\nvexit 3\necho \"after=$?\"\n"),
+        ("err-removed-lower", "trap 'echo \"E:$?\"' ERR\ntrap - err\nvexit 3\necho \"after=$?\"\n"),
+        ("err-lower-and-exit-lower", "trap 'echo \"E:$?\"' err\ntrap 'echo \"T:$?\"' exit\nvexit 3\necho \"after=$?\"\n"),
         ("exit-trap-exec", "trap 'echo \"T:$?\"' EXIT\necho before\nexec vemit replaced\n"),
     ] {
         out.push(Case { script: s.to_string(), tags: vec![format!("special:{n}")], expect_markers: if n == "exit-trap-exec" { Some(0) } else { None }, handler_exits: n == "exit-in-exit-handler-twice" });
